@@ -100,6 +100,21 @@ Definition seek_hyps (H A L W : Z) (tsw : list Z -> option Z) (c : list Z)
   time_ordered (ts_at W tsw c) c /\
   undated_runs_below L (ts_at W tsw c) c.
 
+(* ---- ONE MATCHER (needed only by E2E_window_exact_on_lines) -------------
+   The seek reads timestamps in the W-byte window at a line's first byte
+   ([tsw], on bytes); line-level code reads them on the decoded line
+   ([tsl], on classified lines).  In the implementation both come from one
+   TimestampMatcher class; for the model they are two oracles, and this is
+   the hypothesis that ties them: on every line of the file they agree. *)
+(* byte offset at which line [i] of the file begins *)
+Definition line_offset (c : list Z) (i : nat) : Z :=
+  Z.of_nat (length (concat (firstn i (split_lines c)))).
+Definition one_matcher (W : Z) (tsw : list Z -> option Z) (line : Type)
+           (classify : list Z -> line) (tsl : line -> option Z) (c : list Z)
+  : Prop :=
+  forall i l, nth_error (split_lines c) i = Some l ->
+              tsl (classify l) = ts_at W tsw c (line_offset c i).
+
 (* what is observable of a run's outcome: per registered definition the
    collection's results for it ((line number, captures), collection order),
    and the statistics; None if run() does not return *)
